@@ -3,6 +3,11 @@
 //! and at hand-over the cached values (hook H1 digest) are dumped together with the bare tours and with
 //! the digest obtained by discarding the caches and recomputing.
 
+// operator histories (generation and execution) are shared with the C04 harness
+#[allow(dead_code)]
+#[path = "c04.rs"]
+mod c04;
+
 use serde_json::{Value, json};
 use std::sync::{Arc, Mutex};
 use vrp_core::construction::heuristics::*;
@@ -22,7 +27,31 @@ fn gen_cases(rng: &mut Rng, tier: Tier) -> Vec<Value> {
             c["obj"] = json!(if rng.chance(1, 2) { "cost" } else { "distance" });
             c
         })
+        .collect::<Vec<_>>()
+        .into_iter()
+        .chain(history_cases(rng, tier))
         .collect()
+}
+
+/// operator histories (every shipped search operator, see the C04 harness): only the cache comparison is kept
+fn history_cases(rng: &mut Rng, tier: Tier) -> Vec<Value> {
+    let keep = if tier == Tier::Thorough { 600 } else { 60 };
+    // histories under explicit objectives with per-solution aggregates come first, then the others
+    let mut all = c04::gen_cases(rng, tier);
+    all.sort_by_key(|c| c["sp"]["objectives"].as_array().is_none_or(|o| o.is_empty()));
+    all.truncate(keep);
+    all
+}
+
+fn exec_history(case: &Value) -> Value {
+    let out = c04::exec(case);
+    match out.get("steps").and_then(|s| s.as_array()) {
+        Some(steps) => {
+            let steps: Vec<Value> = steps.iter().map(|s| json!({"op": s["op"], "caches": s["caches"], "stale": s["book"]["routes"].as_array().map(|r| r.iter().any(|x| x["stale"] == true)).unwrap_or(false)})).collect();
+            json!({"history": steps})
+        }
+        None => out,
+    }
 }
 
 fn digest_json(d: Vec<(String, String)>) -> Value {
@@ -108,6 +137,9 @@ impl InsertionEvaluator for Observing {
 }
 
 fn exec(case: &Value) -> Value {
+    if case["k"] == "history" {
+        return exec_history(case);
+    }
     let mc = build_multi_case(case, quiet_env());
     let snaps = Arc::new(Mutex::new(vec![]));
     let heuristic = InsertionHeuristic::new(Box::new(Observing { inner: PositionInsertionEvaluator::default(), snaps: snaps.clone() }));
